@@ -7,7 +7,8 @@ def rules(ctx):
     Hb.ops_frontend(ctx, "C15.dim-frontend")
     Hb.state_objects(ctx, "C15.dim-states")
     Hb.bosonic_circuit(ctx, "C15.dim-bosonic")
-    Hb.thewalrus_kw(ctx, "C15.dim-apps", "apps/train/param.py", {"__returns__": {"A_to_cov": Hb.O}})
+    Hb.thewalrus_kw(ctx, "C15.dim-apps", "apps/train/param.py", {"__returns__": {"A_to_cov": Hb.O, "_Omat": Hb.Z}})
+    Hb.thewalrus_kw(ctx, "C15.dim-apps", "apps/qchem/utils.py", {"marginals": {"mu": Hb.H, "V": Hb.O}})
     Hb.thewalrus_kw(ctx, "C15.dim-apps", "compilers/xcov.py", {"Xcov.compile": {"!S": Hb.Z}})
     A.alias_mutation(ctx, "C15.alias", "backends/states.py", ("BaseGaussianState", "BaseBosonicState"))
     ctx.floor("C15.dim-frontend", 40)
